@@ -41,15 +41,22 @@ def gen_history(rng, w=None, nsteps=(8, 45), final_pairs=True, names_extra=('e',
     W = dict(DEFAULT_W); W.update(w or {})
     out = ['SETUP']; sim = Sim()
     attr_pool = ATTR + (['é', '名'] if multibyte else []) + (['a b', '', ' x', 'a*', 'é'] if exotic else [])
-    for d in rng.sample(DIMS, rng.randint(1, 3)):
+    # minimal states now and then: no dimension at all (only the broadcast right exists), a dimension without attribute
+    for d in rng.sample(DIMS, rng.randint(1, 3) if rng.random() > 0.04 else 0):
         k = rng.choice(['AA', 'AH']); out.append(f'{k} {x(d)}'); sim.dims[d] = []; sim.kinds[d] = k
-        for a in rng.sample(attr_pool, rng.randint(1, 3)):
+        for a in rng.sample(attr_pool, rng.randint(1, 3) if rng.random() > 0.06 else 0):
             aft = '-'
             if k == 'AH' and sim.dims[d] and rng.random() < 0.6: aft = x(rng.choice(sim.dims[d]))
             out.append(f"AT {x(d)} {x(a)} {rng.choice('001')} {aft}"); sim.dims[d].append(a)
     out.append('UPD'); sim.nmpk += 1
     keys = list(W); weights = [W[k] for k in keys]
     for _ in range(rng.randint(*nsteps)):
+        # the same operation twice in a row (idempotence of update / refresh / prune / disable / round trips, a second rekey,
+        # a repeated failing call): now and then the last line is simply repeated
+        if len(out) > 2 and rng.random() < 0.05 and out[-1].split(' ')[0] not in ('SETUP', 'AA', 'AH', 'AT', 'KG', 'EN', 'RC'):
+            out.append(out[-1])
+            if out[-1].split(' ')[0] in ('UPD', 'MPK', 'RK', 'PR'): sim.nmpk += 1
+            continue
         op = rng.choices(keys, weights)[0]
         dims = sim.dims
         if op == 'add_dim':
